@@ -6,11 +6,14 @@ package PVM
 // It records what happened; the verdict is ProgramBlob_Trace's.
 
 import (
+	"bufio"
 	"encoding/binary"
 	"encoding/json"
 	"fmt"
 	"os"
 	"runtime"
+	"runtime/metrics"
+	"sync"
 	"testing"
 	"time"
 
@@ -201,7 +204,31 @@ func vfbInner(c map[string]any, rec map[string]any) {
 		mach["w7"] = vfd.U64LE(oregs[7])
 	})
 	rec["machine"] = mach
-	if mach["panic"] == "" && mach["exit"] == "continue" && oregs[7] < 16 {
+	// the other inner-machine host calls on the fresh machine: pages (2 RW pages at page 16), poke, peek; expunge at the end
+	aux := map[string]any{"ran": false, "pages": "none", "poke": "none", "peek": "none", "expunge": "none", "same": false, "codes": []int{}, "panic": ""}
+	machineOK := mach["panic"] == "" && mach["exit"] == "continue" && oregs[7] < 16
+	nID := oregs[7]
+	if machineOK {
+		aux["ran"] = true
+		aux["panic"] = vfbGuard(func() {
+			k := uint64(min(len(blob), 64))
+			in := func() OmegaInput { return OmegaInput{VM: vm, Addition: mout.Addition} }
+			oregs[7], oregs[8], oregs[9], oregs[10] = nID, 16, 2, 2
+			codes := []int{}
+			aux["pages"] = vfbExitName(pages(in()).ExitReason)
+			codes = append(codes, vfbClamp(int64(oregs[7])))
+			oregs[7], oregs[8], oregs[9], oregs[10] = nID, blobAt, 16*ZP, k
+			aux["poke"] = vfbExitName(poke(in()).ExitReason)
+			codes = append(codes, vfbClamp(int64(oregs[7])))
+			oregs[7], oregs[8], oregs[9], oregs[10] = nID, bufAt+512, 16*ZP, k
+			aux["peek"] = vfbExitName(peek(in()).ExitReason)
+			codes = append(codes, vfbClamp(int64(oregs[7])))
+			aux["codes"] = codes
+			aux["same"] = string(outer.Pages[bufAt/ZP].Value[512:512+k]) == string(blob[:k])
+		})
+		oregs[7] = nID
+	}
+	if machineOK {
 		inv["ran"] = true
 		inv["panic"] = vfbGuard(func() {
 			buf := outer.Pages[bufAt/ZP].Value
@@ -214,6 +241,13 @@ func vfbInner(c map[string]any, rec map[string]any) {
 		})
 	}
 	rec["invoke"] = inv
+	if machineOK && aux["panic"] == "" {
+		aux["panic"] = vfbGuard(func() {
+			oregs[7] = nID
+			aux["expunge"] = vfbExitName(expunge(OmegaInput{VM: vm, Addition: mout.Addition}).ExitReason)
+		})
+	}
+	rec["aux"] = aux
 }
 
 func TestVerifBlob(t *testing.T) {
@@ -224,74 +258,89 @@ func TestVerifBlob(t *testing.T) {
 		t.Fatal(err)
 	}
 	defer f.Close()
+	w := bufio.NewWriterSize(f, 1<<16)
+	heapLimit := uint64(vfd.EnvInt("VF_HEAP_LIMIT_MB", 3072)) << 20
+	watchdog := time.Duration(vfd.EnvInt("VF_WATCHDOG_S", 10)) * time.Second
+	flushEvery := max(1, vfd.EnvInt("VF_FLUSH_EVERY", 64))
+
+	// one worker runs the cases in order; this goroutine watches its progress and the heap.
+	// mu serialises record emission: whoever holds it decides the fate of the current case.
+	var mu sync.Mutex
+	cur, curStart := skip, time.Now() // guarded by mu
 	emit := func(rec map[string]any) {
 		b, err := json.Marshal(rec)
 		if err != nil {
 			panic(err)
 		}
-		f.Write(append(b, '\n'))
+		w.Write(append(b, '\n'))
 	}
-	heapLimit := uint64(vfd.EnvInt("VF_HEAP_LIMIT_MB", 3072)) << 20
-	watchdog := time.Duration(vfd.EnvInt("VF_WATCHDOG_S", 10)) * time.Second
-
-	memCh := make(chan struct{}, 1)
+	newRec := func(i int) map[string]any {
+		c := cases[i]
+		return map[string]any{"id": i, "tag": c["tag"], "kind": c["kind"], "blob": c["blob"], "al": c["al"], "gas": c["gas"], "pc": c["pc"],
+			"allocK": 0, "hang": false, "mem": false, "died": "", "heapK": 0}
+	}
+	samples := []metrics.Sample{{Name: "/gc/heap/allocs:bytes"}, {Name: "/memory/classes/heap/objects:bytes"}}
+	allocs := func() (uint64, uint64) {
+		metrics.Read(samples)
+		return samples[0].Value.Uint64(), samples[1].Value.Uint64()
+	}
+	done := make(chan struct{})
 	go func() {
-		var ms runtime.MemStats
-		for {
-			time.Sleep(40 * time.Millisecond)
-			runtime.ReadMemStats(&ms)
-			if ms.HeapAlloc > heapLimit {
-				select {
-				case memCh <- struct{}{}:
-				default:
-				}
+		defer close(done)
+		for i := skip; i < len(cases); i++ {
+			mu.Lock()
+			cur, curStart = i, time.Now()
+			mu.Unlock()
+			rec := newRec(i)
+			a0, _ := allocs()
+			if vfd.S(cases[i]["kind"]) == "std" {
+				vfbStd(cases[i], rec)
+			} else {
+				vfbInner(cases[i], rec)
+			}
+			a1, live := allocs()
+			rec["allocK"] = vfbClamp(int64((a1 - a0) >> 10))
+			mu.Lock()
+			emit(rec)
+			if i%flushEvery == 0 {
+				w.Flush() // a process death loses at most the unflushed records; the check re-runs from the last one on disk
+			}
+			mu.Unlock()
+			if live > 256<<20 {
+				runtime.GC()
 			}
 		}
 	}()
-
-	var ms0, ms1 runtime.MemStats
-	for i := skip; i < len(cases); i++ {
-		c := cases[i]
-		rec := map[string]any{"id": i, "tag": c["tag"], "kind": c["kind"], "blob": c["blob"], "al": c["al"], "gas": c["gas"], "pc": c["pc"],
-			"allocK": 0, "hang": false, "mem": false, "died": "", "heapK": 0}
-		select { // drain a stale heap alarm
-		case <-memCh:
-			runtime.GC()
-		default:
-		}
-		runtime.ReadMemStats(&ms0)
-		done := make(chan struct{})
-		work := map[string]any{}
-		go func() {
-			defer close(done)
-			if vfd.S(c["kind"]) == "std" {
-				vfbStd(c, work)
-			} else {
-				vfbInner(c, work)
-			}
-		}()
+	tick := time.NewTicker(50 * time.Millisecond)
+	defer tick.Stop()
+	for {
 		select {
 		case <-done:
-			for k, v := range work {
-				rec[k] = v
+			w.Flush()
+			return
+		case <-tick.C:
+			_, live := allocs()
+			mu.Lock()
+			over, late := live > heapLimit, time.Since(curStart) > watchdog
+			if over {
+				// make sure it is not garbage from earlier cases
+				mu.Unlock()
+				runtime.GC()
+				_, live = allocs()
+				mu.Lock()
+				over = live > heapLimit
 			}
-		case <-time.After(watchdog):
-			rec["hang"] = true
-		case <-memCh:
-			rec["mem"] = true
-		}
-		if rec["hang"] == true || rec["mem"] == true {
-			// the worker cannot be stopped: fill the shape, report, and let the check restart after this case
-			vfbFillShape(rec)
-			emit(rec)
-			f.Sync()
-			os.Exit(3)
-		}
-		runtime.ReadMemStats(&ms1)
-		rec["allocK"] = vfbClamp(int64((ms1.TotalAlloc - ms0.TotalAlloc) >> 10))
-		emit(rec)
-		if ms1.HeapAlloc > 256<<20 {
-			runtime.GC()
+			if over || late {
+				// the worker cannot be stopped: report the current case and let the check restart after it
+				rec := newRec(cur)
+				rec["hang"], rec["mem"] = late && !over, over
+				vfbFillShape(rec)
+				emit(rec)
+				w.Flush()
+				f.Sync()
+				os.Exit(3)
+			}
+			mu.Unlock()
 		}
 	}
 }
@@ -305,5 +354,6 @@ func vfbFillShape(rec map[string]any) {
 		rec["run"] = map[string]any{"ran": false, "kind": "none", "used": 0, "panic": ""}
 		rec["machine"] = map[string]any{"exit": "none", "w7": []int{}, "panic": ""}
 		rec["invoke"] = map[string]any{"ran": false, "exit": "none", "w7": []int{}, "gasleft": 0, "panic": ""}
+		rec["aux"] = map[string]any{"ran": false, "pages": "none", "poke": "none", "peek": "none", "expunge": "none", "same": false, "codes": []int{}, "panic": ""}
 	}
 }
